@@ -20,7 +20,9 @@ RULE = ('(a) bounded-exhaustive token soups over the LaTeX-significant alphabet 
         '{ {, }, $, \\(, \\), \\[, \\], \\begin{x}, \\end{x}, \\begin{itemize}, \\end{itemize} } is '
         'inserted and the result must raise LatexWalkerParseError; (c) thorough tier: atheris '
         'campaigns with oracle (a) inside the target. Walker line/column offsets are varied per '
-        'input (checksum-chosen) in (a). Non-trivial = (a) soups '
+        'input (checksum-chosen) in (a). Accepted soups are audited: every active brace, dollar sign, \\begin / \\end token '
+        'is the delimiter of a group / formula / environment node of the result. '
+        'Non-trivial = (a) soups '
         'containing >= 1 structural token (distinct by construction), (b) every injected case '
         '(distinct by (document, offset, fault)).')
 ASSUMPTIONS = [
